@@ -13,7 +13,11 @@ import (
 func init() {
 	regSpec(scen.IDs)
 	Registry["C14"] = func(tier string) int {
-		return engineAWith("C14", tier, []scen.Spec{scen.IDs(), scen.BridgeSpec()},
+		// the market scenario (orders open while governance removes and re-adds an ask denom) only for the
+		// reference clauses, two levels shallower than in its own checks
+		market := scen.Market()
+		market.DepthQuick, market.DepthThor, market.MinStates = 2, 3, 50
+		return engineAWith("C14", tier, []scen.Spec{scen.IDs(), scen.BridgeSpec(), market},
 			func() []explore.Monitor { return []explore.Monitor{&mon.C14{}} },
 			budget(tier, 150*time.Second, 12*time.Minute),
 			func(o *runner.Outcome) { pure.C14Formats(tier, o) },
